@@ -1,6 +1,6 @@
 """Reusable correspondence streams (T-co).  Property modules call these with their entries."""
 from __future__ import annotations
-from . import core, history, generic
+from . import core, history, generic, variation
 from .catalogue import entries
 from .compare import close, impl_val
 from .model import run_model, crosscheck_in_coq, T
@@ -9,7 +9,7 @@ from .model import run_model, crosscheck_in_coq, T
 SPEC_PROPS = {"C04", "C05", "C06", "C07", "C08"}
 
 
-def hist_corr(ctx, ents=None, mix=None, name="history-correspondence", nhist=None, nops=(4, 8, 14), maxn=8):
+def hist_corr(ctx, ents=None, mix=None, name="history-correspondence", nhist=None, nops=(4, 8, 14), maxn=8, variant=None, sizes=None):
     """Random operation histories: Coq pool model vs real classes, observation by observation
     (state after every op, compute results).  One tie obligation per class."""
     s = ctx.stream(name)
@@ -21,14 +21,15 @@ def hist_corr(ctx, ents=None, mix=None, name="history-correspondence", nhist=Non
         for h in range(per):
             cfg = cfgs[h % len(cfgs)]
             nobj = ctx.rng.choice([2, 3, 3, 4])
-            ops = history.gen_history(ctx.rng, e, cfg, nobj=nobj, nops=ctx.rng.choice(list(nops)), mix=mix, maxn=maxn)
+            ops = history.gen_history(ctx.rng, e, cfg, nobj=nobj, nops=ctx.rng.choice(list(nops)), mix=mix, maxn=maxn, sizes=sizes)
             cases.append(history.model_case(e, cfg, nobj, ops))
             meta.append((e, cfg, nobj, ops))
     outs = run_model(cases)
     bad = {}
     for (e, cfg, nobj, ops), mobs in zip(meta, outs):
         try:
-            iobs = history.run_impl(e, cfg, nobj, ops)
+            with variation.variant(variant):
+                iobs = history.run_impl(e, cfg, nobj, ops)
             d = history.compare_obs(e, ops, mobs, iobs)
         except Exception as ex:  # the harness itself must not hide an implementation crash
             d = {"at": -1, "why": f"implementation raised outside update/compute: {type(ex).__name__}: {ex}"}
@@ -41,28 +42,53 @@ def hist_corr(ctx, ents=None, mix=None, name="history-correspondence", nhist=Non
         if d and e.name not in bad:
             def fails(trial, e=e, cfg=cfg, nobj=nobj):
                 try:
-                    return history.check_history(e, cfg, nobj, trial) is not None
+                    with variation.variant(variant):
+                        return history.check_history(e, cfg, nobj, trial) is not None
                 except Exception:
                     return True
             small = history.shrink_ops(ops, fails)
             small = history.shrink_batches(e, cfg, small, fails)
             try:
-                d2 = history.check_history(e, cfg, nobj, small) or d
+                with variation.variant(variant):
+                    d2 = history.check_history(e, cfg, nobj, small) or d
             except Exception as ex:
                 d2 = {"why": f"{type(ex).__name__}: {ex}"}
-            bad[e.name] = {"class": e.name, "cfg": cfg, "nobj": nobj, "ops": small, "disagreement": d2}
+            if ctx.prop in SPEC_PROPS and isinstance(d2, dict) and d2.get("op") in ("upd", "merge") and isinstance(d2.get("at"), int) and d2["at"] >= 0:
+                # a state disagreement: does the result disagree too?  (compute() right after the op)
+                try:
+                    ext = small[:d2["at"] + 1] + [("compute", small[d2["at"]][1])]
+                    with variation.variant(variant):
+                        io = history.run_impl(e, cfg, nobj, ext)[-1]
+                    mo = run_model([history.model_case(e, cfg, nobj, ext)])[0][-1]
+                    why = None if (isinstance(mo, T) and isinstance(io, T) and mo.tag == io.tag == "err") else close(mo, io, e.tol)
+                    if why:
+                        small, d2 = ext, {"at": len(ext) - 1, "op": "compute", "why": why, "state_disagreement": d2}
+                except Exception:
+                    pass
+            bad[e.name] = {"class": e.name, "cfg": cfg, "nobj": nobj, "disagreement": d2, "ops": small}
+            if variant:
+                bad[e.name]["presentation"] = variant
             s.mismatches.append(bad[e.name])
-    n, dis = crosscheck_in_coq(cases, outs, ctx.prop + "h", limit=ctx.n(40, 200))
-    ctx.oblige(f"tie:extraction-vs-vm_compute:{name}", dis == 0,
-               detail=f"{dis} of {n} sampled cases differ between extracted OCaml and in-Coq vm_compute")
-    s.dist["in_coq_crosschecked"] = n
+    sfx = f"[{variant}]" if variant else ""
+    if not variant:
+        n, dis = crosscheck_in_coq(cases, outs, ctx.prop + "h", limit=ctx.n(40, 200))
+        ctx.oblige(f"tie:extraction-vs-vm_compute:{name}", dis == 0,
+                   detail=f"{dis} of {n} sampled cases differ between extracted OCaml and in-Coq vm_compute")
+        s.dist["in_coq_crosschecked"] = n
     for e in ents:
         m = bad.get(e.name)
-        ctx.oblige(f"tie:corr:{e.name}", m is None, detail=repr(core.canon(m))[:1500] if m else "")
+        ctx.oblige(f"tie:corr:{e.name}{sfx}", m is None, detail=repr(core.canon(m))[:1500] if m else "")
+        d = (m or {}).get("disagreement") or {}
+        if m is not None and ctx.prop in SPEC_PROPS and isinstance(d, dict) and d.get("op") == "compute":
+            # the model's compute() is proved equal to the definition on the data its state summarises (Props/),
+            # so a history after which the real compute() differs from the model's is a failing input
+            ctx.violation("failing-input", e.name, {"check": "class_history_vs_model", **m, "presentation": variant or "base",
+                                                   "broken": f"tie:corr:{e.name}{sfx}"},
+                          finding_id=core.match_finding(ctx.prop, e.name, str(d)))
     return bad
 
 
-def fn_corr(ctx, ents=None, name="functional-correspondence", ncases=None, gen=None, sizes=(1, 2, 3, 5, 8, 13, 40)):
+def fn_corr(ctx, ents=None, name="functional-correspondence", ncases=None, gen=None, sizes=(1, 2, 3, 5, 8, 13, 40), variant=None):
     """Functional form on generated inputs vs the Coq functional model (algo) and, where the entry
     names one, the Coq spec model.  gen(rng, e, cfg) may override the batch generator."""
     s = ctx.stream(name)
@@ -86,7 +112,8 @@ def fn_corr(ctx, ents=None, name="functional-correspondence", ncases=None, gen=N
         if kind == "algo":
             last_algo = mo
             try:
-                r = e.fn_val(e.functional(cfg, b))
+                with variation.variant(variant):
+                    r = e.fn_val(e.functional(cfg, b))
             except Exception as ex:
                 r = T("err")
             d = None if (isinstance(mo, T) and mo.tag in ("err", "none") and isinstance(r, T)) else close(mo, r, e.tol)
@@ -96,25 +123,50 @@ def fn_corr(ctx, ents=None, name="functional-correspondence", ncases=None, gen=N
             s.count("fn:" + e.name)
             s.count("size:%d" % min(e.size(b), 50))
             if d and e.name not in bad:
-                bad[e.name] = {"function": e.name, "cfg": cfg, "batch": b, "disagreement": d}
+                bad[e.name] = {"function": e.name, "cfg": cfg, "disagreement": d, "batch": b}
+                if variant:
+                    bad[e.name]["presentation"] = variant
                 s.mismatches.append(bad[e.name])
         else:
             d = close(mo, last_algo, 0) if not (isinstance(mo, T) and isinstance(last_algo, T) and mo.tag == last_algo.tag) else None
             if d and ("spec:" + e.name) not in bad:
                 bad["spec:" + e.name] = {"function": e.name, "cfg": cfg, "batch": b, "algo_vs_spec": d}
-    n, dis = crosscheck_in_coq(cases, outs, ctx.prop + "f", limit=ctx.n(40, 200))
-    ctx.oblige(f"tie:extraction-vs-vm_compute:{name}", dis == 0,
-               detail=f"{dis} of {n} sampled cases differ between extracted OCaml and in-Coq vm_compute")
+    sfx = f"[{variant}]" if variant else ""
+    if not variant:
+        n, dis = crosscheck_in_coq(cases, outs, ctx.prop + "f", limit=ctx.n(40, 200))
+        ctx.oblige(f"tie:extraction-vs-vm_compute:{name}", dis == 0,
+                   detail=f"{dis} of {n} sampled cases differ between extracted OCaml and in-Coq vm_compute")
     for e in ents:
         m = bad.get(e.name)
-        ctx.oblige(f"tie:fn:{e.name}", m is None, detail=repr(core.canon(m))[:1500] if m else "")
+        ctx.oblige(f"tie:fn:{e.name}{sfx}", m is None, detail=repr(core.canon(m))[:1500] if m else "")
         if m is not None and ctx.prop in SPEC_PROPS:
             # the model is proved equal to the definition (Props/), so an input on which the real
             # function differs from the model is an input on which it differs from the definition
             ctx.violation("failing-input", e.name, {"check": "fn_vs_model", "function": e.name, "cfg": m["cfg"], "batch": m["batch"],
-                                                   "observed": m["disagreement"], "broken": f"tie:fn:{e.name}"},
+                                                   "observed": m["disagreement"], "presentation": variant or "base",
+                                                   "broken": f"tie:fn:{e.name}{sfx}"},
                           finding_id=core.match_finding(ctx.prop, e.name, str(m["disagreement"])))
-        if getattr(e, "spec_model", None):
+        if getattr(e, "spec_model", None) and not variant:
             m = bad.get("spec:" + e.name)
             ctx.oblige(f"model:algo=spec:{e.name}", m is None, detail=repr(core.canon(m))[:1500] if m else "")
     return bad
+
+
+def presentation_variants(ctx, fn_ents=None, hist_ents=None, modes=None, ncases=None, nhist=None, **kw):
+    """The same correspondence with the same numbers presented differently (float64 scores, narrow
+    integer labels, non-contiguous views): vlib/variation.py.  One named stream per presentation."""
+    modes = modes or (variation.QUICK_MODES if ctx.quick else variation.MODES)
+    kw.setdefault("sizes", (1, 2, 3, 8, 40, 300))       # narrow integer dtypes wrap from 128 / 256 samples per call
+    out = {}
+    for mode in modes:
+        before = dict(variation.STATS)
+        if fn_ents:
+            out[("fn", mode)] = fn_corr(ctx, ents=fn_ents, name=f"functional-correspondence [{mode}]", ncases=ncases or ctx.n(12, 120),
+                                        variant=mode, **{k: v for k, v in kw.items() if k in ("gen", "sizes")})
+        if hist_ents:
+            out[("hist", mode)] = hist_corr(ctx, ents=hist_ents, name=f"history-correspondence [{mode}]", nhist=nhist or ctx.n(4, 40),
+                                            variant=mode, sizes=list(kw.get("hist_sizes", [1, 2, 5, 130, 300])), **{k: v for k, v in kw.items() if k in ("mix", "nops", "maxn")})
+        done = variation.STATS.get(mode, 0) - before.get(mode, 0)
+        rej = variation.STATS.get("rejected:" + mode, 0) - before.get("rejected:" + mode, 0)
+        ctx.notes.append(f"presentation {mode}: {done} tensor arguments re-presented, {rej} calls refused by the real code and repeated in the base presentation")
+    return out
